@@ -799,12 +799,14 @@ class TrueTypeFont:
                 for i, firstcode, entcount, delta, pos in hdrs:
                     if not entcount:
                         continue
-                    first = firstcode + (firstbytes[i] << 8)
+                    # Subheader 0 describes the single-byte characters: they
+                    # have no high byte.
+                    first = firstcode + (firstbytes[i] << 8) if i else firstcode
                     fp.seek(pos)
                     for c in range(entcount):
                         gid = cast(Tuple[int], struct.unpack(">H", fp.read(2)))[0]
                         if gid:
-                            gid += delta
+                            gid = (gid + delta) & 0xFFFF
                         char2gid[first + c] = gid
             elif fmttype == 4:
                 (segcount, _1, _2, _3) = cast(
